@@ -49,6 +49,11 @@ def conditions(tier):
         n = "l1_FGF_2n_" + sfx(cs, ps)
         q.append(("one_cut_FGF_two_groups_natural_order_" + sfx(cs, ps), _g(n, S_FGF, ((1,), [(0, 0, 0), (1, 0, 1)]), cs, ps), n, 900,
                   f"as the first template but the pieces listed in input order (left piece first), contig strands {cs}, piece strands {ps}"))
+    for cs in ((1,), (-1,)):
+        for ps in ((1, 1, 1), (1, -1, 1)):
+            n = "l2_F_" + sfx(cs, ps)
+            q.append(("two_cuts_single_contig_" + sfx(cs, ps), _g(n, [("S1", "F")], ((2,), [(0, 0, 0), (1, 0, 1), (2, 0, 2)]), cs, ps), n, 900,
+                      f"input of ONE contig (strand {cs}) cut twice: the middle piece lies wholly inside the contig (minimum pieces of exactly two texels included), three painted Pretext scaffolds, piece strands {ps}"))
     src_q = HEAD + "".join(x[1] for x in q)
     for (n, _, fn, to, bound) in q:
         out.append(Cond(n, src_q, fn, to, bound, replay="replay_model", encodes=ENC))
